@@ -588,7 +588,25 @@ pub fn run_prop<P: Prop>(p: &P, tier: Tier, seed: u64, fuzz_stats: Option<Value>
     });
     let ev_dir = root.join("evidence");
     let _ = std::fs::create_dir_all(&ev_dir);
-    if let Err(e) = std::fs::write(ev_dir.join(format!("{id}.json")), serde_json::to_string_pretty(&ev).unwrap()) {
+    let mut ev = ev;
+    // configuration axis (C18): embed the summary of the run in the other build configuration
+    if let Ok(mp) = std::env::var("PPV_MERGE_EVIDENCE") {
+        match std::fs::read_to_string(&mp).ok().and_then(|s| serde_json::from_str::<Value>(&s).ok()) {
+            Some(other) => {
+                let oc = &other["coverage"];
+                ev["coverage"]["other_build_configuration"] = json!({
+                    "evaluations": oc["evaluations"], "distinct_nontrivial": oc["distinct_nontrivial"], "labels": oc["labels"],
+                    "rule": oc["rule"], "violations": other["violations"], "wall_s": other["wall_s"],
+                });
+            }
+            None => {
+                eprintln!("ERROR: cannot read evidence of the other build configuration at {mp}");
+                exit = exit.max(2);
+            }
+        }
+    }
+    let ev_path = std::env::var("PPV_EVIDENCE_OUT").map(PathBuf::from).unwrap_or_else(|_| ev_dir.join(format!("{id}.json")));
+    if let Err(e) = std::fs::write(&ev_path, serde_json::to_string_pretty(&ev).unwrap()) {
         eprintln!("ERROR: cannot write evidence: {e}");
         exit = exit.max(2);
     }
